@@ -274,7 +274,8 @@ def run(chk, prog):
     from .c12_sizes import rule_M8
     n8, sites8 = rule_M8(chk, prog.library())
     chk.floor("M8 construction sites", sites8, 1)
-    chk.floor("M8", n8, 1)
+    # (no floor on the number of comparable loops: a context that walks its containers with range-for, or bounds its loops by
+    # the containers' own size, leaves nothing to compare)
     # fixture: a class that must be reported, and a twin that must not
     fx = dump_fixture(os.path.join(VERIF, "fixtures", "c12_m1.hpp.cpp"))
     from ..report import Check
